@@ -1,5 +1,291 @@
-//! Conformance harness for property C17, see /verif/DESIGN.md.
+//! Conformance harness for property C17 (alias substitution), see
+//! /verif/DESIGN.md section 6 and /verif/spec/Alias.tla.
+//!
+//! Sub-commands
+//!   replay --in gen.ndjson --out bad.ndjson
+//!       spec -> impl: every line is {tb, line, out, amb, unspec} printed by TLC
+//!       (spec/Alias.tla, `Emit`).  The line is parsed by the real parser with
+//!       the alias table; the spec's by-hand result is rendered to text and
+//!       parsed with NO aliases; printed command lists and the alias origin of
+//!       every word must agree.
+//!   random --n N --out rec.ndjson
+//!       impl -> spec: random tables and lines, observed parse recorded.
+//!   judge --rec rec.ndjson --res res.ndjson --out bad.ndjson
+//!       second half of impl -> spec: `res` holds, per record id, the allowed
+//!       by-hand results computed by TLC (spec/Trace_Alias.tla).
+//!   e2e --n N --out rec.ndjson
+//!       random tables/lines through the `alias` built-in in a real shell run
+//!       (definitions on one line, use on the next / on the same line).
+//!   one  (reads one {tb, line} JSON from stdin, prints the observation)
+mod e2e;
+mod model;
+mod parse;
+
+use model::*;
+use serde_json::{Value, json};
+use std::collections::HashMap;
+use std::io::{BufRead, Write};
+use yvcommon::util::{open_in, open_out, opt, opt_usize};
+
 fn main() {
-    eprintln!("yv-c17: not implemented yet");
-    std::process::exit(2);
+    let args: Vec<String> = std::env::args().collect();
+    if args.len() < 2 {
+        eprintln!("usage: yv-c17 <replay|random|judge|e2e|one> ...");
+        std::process::exit(2);
+    }
+    yvcommon::util::quiet_panics();
+    parse::start_watchdog();
+    let rest: Vec<String> = args[2..].to_vec();
+    let cmd = args[1].clone();
+    // Deep alias origin chains are dropped recursively: use a big stack.
+    let t = std::thread::Builder::new()
+        .stack_size(512 << 20)
+        .spawn(move || match cmd.as_str() {
+            "replay" => replay(&rest),
+            "random" => random(&rest),
+            "judge" => judge(&rest),
+            "e2e" => e2e::run(&rest),
+            "one" => one(),
+            other => {
+                eprintln!("unknown subcommand {other}");
+                2
+            }
+        })
+        .unwrap();
+    let code = t.join().unwrap_or(2);
+    std::process::exit(code);
+}
+
+/// Verdict for one (table, line) with its set of allowed by-hand results.
+/// Returns (ok, class, detail)
+fn verdict(tb: &Table, line: &[String], allowed: &[Vec<OutTok>]) -> (bool, &'static str, Value) {
+    let text = render_line(line);
+    let obs = parse::parse_with(&text, Some(tb));
+    let mut hands = Vec::new();
+    let mut ok = false;
+    let mut class = "mismatch";
+    if obs.status == "hang" || obs.status == "panic" {
+        class = if obs.status == "hang" { "hang" } else { "panic" };
+    } else {
+        for a in allowed {
+            let toks: Vec<String> = a.iter().map(|t| t.t.clone()).collect();
+            let htext = render_line(&toks);
+            let hand = parse::parse_with(&htext, None);
+            let same_parse = obs.status == hand.status && (obs.status == "err" || obs.printed == hand.printed);
+            // origin of every word: only comparable when the parse succeeded
+            // (after a syntax error the rest of the line is never tokenised)
+            let mut same_words = true;
+            if same_parse && obs.status == "ok" && !obs.unsupported {
+                let mut want: Vec<(String, Vec<String>)> =
+                    a.iter().filter(|t| t.k == "w").map(|t| (render_tok(&t.t), t.o.clone())).collect();
+                let mut got = obs.words.clone();
+                want.sort();
+                got.sort();
+                same_words = want == got;
+            }
+            hands.push(json!({"text": htext, "status": hand.status, "printed": hand.printed, "err": hand.err,
+                              "same_parse": same_parse, "same_words": same_words}));
+            if same_parse && same_words {
+                ok = true;
+                class = if obs.status == "ok" { "ok-parsed" } else { "ok-error" };
+                break;
+            }
+            if same_parse && !same_words {
+                class = "origin";
+            }
+        }
+    }
+    let detail = json!({"text": text, "obs": obs.to_json(), "hand": hands});
+    (ok, class, detail)
+}
+
+fn replay(args: &[String]) -> i32 {
+    let input = open_in(args);
+    let mut out = open_out(args);
+    let max_samples = opt_usize(args, "--samples", 6);
+    let mut n_cases = 0usize; // lines read
+    let mut n_groups = 0usize; // (table, line) pairs judged
+    let mut n_unspec = 0usize;
+    let mut n_ok_parsed = 0usize;
+    let mut n_ok_error = 0usize;
+    let mut n_bad = 0usize;
+    let mut n_nontrivial = 0usize;
+    let mut n_amb = 0usize;
+    let mut samples: Vec<Value> = Vec::new();
+    // ambiguous cases arrive as several lines with the same (tb, line)
+    let mut pending: HashMap<String, (Table, Vec<String>, Vec<Vec<OutTok>>, bool)> = HashMap::new();
+
+    let mut handle = |tb: &Table, line: &[String], allowed: &[Vec<OutTok>], unspec: bool, amb: bool,
+                      out: &mut Box<dyn Write>| {
+        n_groups += 1;
+        if amb {
+            n_amb += 1;
+        }
+        if unspec {
+            n_unspec += 1;
+            return;
+        }
+        let (ok, class, detail) = verdict(tb, line, allowed);
+        let plain: Vec<String> = line.iter().filter(|t| *t != "LC").cloned().collect();
+        let changed = allowed.iter().any(|a| a.iter().map(|t| &t.t).ne(plain.iter()));
+        if ok {
+            if class == "ok-parsed" {
+                n_ok_parsed += 1;
+                if changed {
+                    n_nontrivial += 1;
+                    if samples.len() < max_samples && (n_nontrivial % 997 == 1) {
+                        samples.push(json!({"tb": table_json(tb), "line": line, "text": detail["text"],
+                            "by_hand": detail["hand"][0]["text"], "parsed": detail["obs"]["printed"]}));
+                    }
+                }
+            } else {
+                n_ok_error += 1;
+            }
+        } else {
+            n_bad += 1;
+            let rec = json!({"class": class, "tb": table_json(tb), "line": line,
+                "allowed": allowed.iter().map(|a| a.iter().map(|t| t.to_json()).collect::<Vec<_>>()).collect::<Vec<_>>(),
+                "detail": detail});
+            writeln!(out, "{rec}").unwrap();
+        }
+    };
+
+    for l in input.lines() {
+        let l = l.expect("read");
+        if l.trim().is_empty() {
+            continue;
+        }
+        let v: Value = serde_json::from_str(&l).expect("json");
+        n_cases += 1;
+        let tb = table_from_json(&v["tb"]);
+        let line = strs(&v["line"]);
+        let outv = out_from_json(&v["out"]);
+        let amb = v["amb"].as_bool().unwrap_or(false);
+        let unspec = v["unspec"].as_bool().unwrap_or(false);
+        if amb {
+            let key = format!("{}|{}", v["tb"], v["line"]);
+            let e = pending.entry(key).or_insert_with(|| (tb, line, Vec::new(), false));
+            if !e.2.contains(&outv) {
+                e.2.push(outv);
+            }
+            e.3 |= unspec;
+        } else {
+            handle(&tb, &line, &[outv], unspec, false, &mut out);
+        }
+    }
+    let mut keys: Vec<String> = pending.keys().cloned().collect();
+    keys.sort();
+    for k in keys {
+        let (tb, line, allowed, unspec) = pending.remove(&k).unwrap();
+        handle(&tb, &line, &allowed, unspec, true, &mut out);
+    }
+    out.flush().unwrap();
+    let summary = json!({"lines": n_cases, "cases": n_groups, "unspecified_skipped": n_unspec,
+        "agree_parsed": n_ok_parsed, "agree_syntax_error": n_ok_error, "bad": n_bad,
+        "nontrivial": n_nontrivial, "ambiguous": n_amb, "samples": samples});
+    println!("{summary}");
+    0
+}
+
+fn random(args: &[String]) -> i32 {
+    let n = opt_usize(args, "--n", 1000);
+    let mut out = open_out(args);
+    let mut g = model::Gen::new(yvcommon::util::seed() ^ 0xc17);
+    for id in 1..=n {
+        let (tb, line) = g.case();
+        let text = render_line(&line);
+        let obs = parse::parse_with(&text, Some(&tb));
+        let words: Vec<Value> = obs.words.iter().map(|(t, o)| json!({"t": unrender_tok(t), "o": o})).collect();
+        let rec = json!({"id": id, "tb": table_json(&tb), "line": line, "st": obs.status,
+            "wordsok": obs.status == "ok" && !obs.unsupported,
+            "words": words, "printed": obs.printed, "err": obs.err, "lookups": obs.lookups});
+        writeln!(out, "{rec}").unwrap();
+    }
+    out.flush().unwrap();
+    0
+}
+
+fn judge(args: &[String]) -> i32 {
+    let rec_path = opt(args, "--rec").expect("--rec");
+    let res_path = opt(args, "--res").expect("--res");
+    let mut out = open_out(args);
+    let mut res: HashMap<u64, Value> = HashMap::new();
+    for l in std::io::BufReader::new(std::fs::File::open(res_path).expect("open --res")).lines() {
+        let l = l.unwrap();
+        if l.trim().is_empty() {
+            continue;
+        }
+        let v: Value = serde_json::from_str(&l).expect("json");
+        res.insert(v["id"].as_u64().unwrap(), v);
+    }
+    let (mut n, mut n_unspec, mut n_ok_parsed, mut n_ok_err, mut n_bad, mut n_missing, mut n_nontrivial) =
+        (0usize, 0usize, 0usize, 0usize, 0usize, 0usize, 0usize);
+    let mut samples = Vec::new();
+    for l in std::io::BufReader::new(std::fs::File::open(rec_path).expect("open --rec")).lines() {
+        let l = l.unwrap();
+        if l.trim().is_empty() {
+            continue;
+        }
+        let r: Value = serde_json::from_str(&l).expect("json");
+        n += 1;
+        let id = r["id"].as_u64().unwrap();
+        let Some(s) = res.get(&id) else {
+            n_missing += 1;
+            continue;
+        };
+        if s["unspec"].as_bool().unwrap_or(false) {
+            n_unspec += 1;
+            continue;
+        }
+        let mut ok = false;
+        let mut hands = Vec::new();
+        for a in s["res"].as_array().unwrap() {
+            let toks = strs(a);
+            let htext = render_line(&toks);
+            let hand = parse::parse_with(&htext, None);
+            let same = r["st"] == hand.status.as_str() && (hand.status == "err" || r["printed"] == hand.printed.as_str());
+            hands.push(json!({"text": htext, "status": hand.status, "printed": hand.printed, "err": hand.err}));
+            if same {
+                ok = true;
+                break;
+            }
+        }
+        if ok {
+            if r["st"] == "ok" {
+                n_ok_parsed += 1;
+                let line = strs(&r["line"]);
+                let plain: Vec<String> = line.iter().filter(|t| *t != "LC").cloned().collect();
+                if s["res"].as_array().unwrap().iter().any(|a| strs(a) != plain) {
+                    n_nontrivial += 1;
+                    if samples.len() < 4 && n_nontrivial % 499 == 1 {
+                        samples.push(json!({"tb": r["tb"], "line": r["line"], "by_hand": hands.last().unwrap()["text"],
+                            "parsed": r["printed"]}));
+                    }
+                }
+            } else {
+                n_ok_err += 1;
+            }
+        } else {
+            n_bad += 1;
+            writeln!(out, "{}", json!({"class": if r["st"] == "hang" {"hang"} else if r["st"] == "panic" {"panic"} else {"mismatch"},
+                "tb": r["tb"], "line": r["line"], "rec": r, "hand": hands})).unwrap();
+        }
+    }
+    out.flush().unwrap();
+    println!("{}", json!({"records": n, "unspecified_skipped": n_unspec, "agree_parsed": n_ok_parsed,
+        "agree_syntax_error": n_ok_err, "bad": n_bad, "missing": n_missing, "nontrivial": n_nontrivial,
+        "samples": samples}));
+    0
+}
+
+fn one() -> i32 {
+    let mut s = String::new();
+    std::io::stdin().lock().read_line(&mut s).unwrap();
+    let v: Value = serde_json::from_str(&s).expect("json");
+    let tb = table_from_json(&v["tb"]);
+    let line = strs(&v["line"]);
+    let text = render_line(&line);
+    let obs = parse::parse_with(&text, Some(&tb));
+    println!("{}", json!({"text": text, "obs": obs.to_json()}));
+    0
 }
